@@ -20,7 +20,7 @@ def make_xml(rng, idx):
     for m in rng.sample(["run", "get", "&lt;init&gt;"], rng.randrange(0, 3)):
         cov = rng.choice([0, 1])
         meth += ('<method name="%s" desc="()V" line="%d"><counter type="INSTRUCTION" missed="1" covered="%d"/>'
-                 '<counter type="METHOD" missed="%d" covered="%d"/></method>') % (m, rng.choice([1, 3, 7]), cov, 1 - cov, cov)
+                 '<counter type="METHOD" missed="%d" covered="%d"/></method>') % (m, {"run": 1, "get": 3}.get(m, 7), cov, 1 - cov, cov)
     body = ('<report name="r%d"><sessioninfo id="s" start="1" dump="2"/><package name="%s"><class name="%s/%s" sourcefilename="%s">%s</class>'
             '<sourcefile name="%s">%s<counter type="LINE" missed="1" covered="1"/></sourcefile></package></report>') % (
         idx, pk, pk, cls, src, meth, src, lines)
@@ -79,7 +79,7 @@ def run(chk):
                 open(p, "wb").write(make_xml(rng, j))
             else:
                 p = os.path.join(ind, "c%d.info" % j)
-                open(p, "wb").write(pipeline.make_info(rng, j, ["src/a.c", "b.c", "com/x/Top.java", "lib/é.rs"]))
+                open(p, "wb").write(pipeline.make_info(rng, j, ["src/a.c", "b.c", "com/x/Top.java", "lib/é.rs"], agree_starts=True))
             files.append(p)
         branch = rng.random() < 0.7
         depth = rng.choice([1, 2, 3])
@@ -117,6 +117,7 @@ def run(chk):
                        "non-trivial = scenario that agreed; the model side is the composition theorem (no separate evaluation)")
     chk.cov["trusted_base"] = ["Coq kernel", "C01 and C05 developments (composition)", "CLI runs, Python record reader"]
     chk.assumptions = ["each stage is run with the same --branch setting; path options are not used between stages",
+                       "inputs agree on the start line of every function they both name (otherwise the start line depends on the processing order: C02's carve-out)",
                        "known finding: JaCoCo branch data is produced even without --branch and is dropped by a later lcov stage without --branch"]
 
 
